@@ -414,6 +414,12 @@ def gen_solve_case(rng, stream=None):
                 g0[r] += g.cn_configs[c].cn[0][r]
                 if has_p:
                     g1[r] += g.cn_configs[c].cn[1][r]
+    if has_p and rng.random() < 0.25:
+        # evidence no combination of configurations produces exactly: whole extra (or missing) copies of the pseudogene only, e.g. a
+        # double deletion of the gene next to 3-4 pseudogene copies: the exclusivity / prefix rows decide what may be combined
+        shift = rng.choice([1, 2, 2, -1])
+        for r in g1:
+            g1[r] += shift
     noise = rng.choice([0.5, 0.5, 0.3, 0.1, 0.0])
     regs = list(g.unique_regions)
     if rng.random() < 0.1:
